@@ -546,7 +546,36 @@ def gen_cases(rng, tier):
     cases += guess_cases(rng, tier)
     cases += pulsed_cases(rng, tier)
     cases += history_cases(rng, tier)
+    cases += control_cases(rng, tier)
     return cases
+
+
+CONTROL_APIS = ["pt+compute_dynamics", "compute_dynamics_with_field"]
+
+
+def _ctrl_params(controls, n=6):
+    return {"dt": 0.1, "n": n, "subdiv": None, "frac": 0.0, "record_all": True,
+            "controls": controls, "step_controls": [], "real_pt": False}
+
+
+def control_cases(rng, tier):
+    """float-time controls (a) one step apart at origins far from zero, (b) with a shift that puts a
+    control time EXACTLY on t = 0.0 (start' = -(k*dt), so start' + k*dt == 0.0 in binary64)"""
+    out = []
+    fars = [3.0e4, -3.0e4, 1.0e5]
+    for i, api in enumerate(CONTROL_APIS):
+        # (a) different operations on consecutive steps, pre and post
+        taus = [fars[(i + rng.randrange(3)) % 3]] if tier == "quick" else fars
+        for tau in taus:
+            k0 = rng.choice([1, 2, 3])
+            ctr = [(k0, 0.0, 0, 0), (k0 + 1, 0.0, 0, 1), (k0 + 2, 0.0, 1, 0), (k0 + 1, 0.0, 1, 1)]
+            out.append((api, _ctrl_params(ctr), 0.0, tau))
+        # (b) a pre / a post control exactly at t = 0.0 after the shift
+        ks = [(rng.choice([2, 3, 4]), rng.getrandbits(1))] if tier == "quick" \
+            else [(3, 0), (5, 1), (2, 1), (4, 0)]
+        for k, post in ks:
+            out.append((api, _ctrl_params([(k, 0.0, post, 0)]), 0.0, -(k * 0.1)))
+    return out
 
 
 HISTORY_SHIFTS = [-0.3, -1.0, -2.5, 0.45, -0.25, 1.7]
@@ -1107,6 +1136,8 @@ def correspondence(res, tier, rng):
         res.count("run:%s%s" % (api, ":typed-callables" if p.get("typed") is not None else
                                 ":pulses-between-integers" if p.get("pulsed") is not None else
                                 ":compute-history" if p.get("history") else
+                                ":control-at-zero" if p.get("controls") and any(
+                                    start + tau + (c[0] + c[1]) * p["dt"] == 0.0 for c in p["controls"]) else
                                 ":far-origin" if abs(tau) >= 1000 else ""))
         res.count("shift:" + kind)
         res.count("subdiv:%s" % ("None" if p.get("subdiv", 256) is None else "quad_vec"))
@@ -1177,6 +1208,12 @@ def search(res, rng=None):
             fixed.insert(0, (api, {"dt": 0.1, "n": int(round((c + 0.5) / 0.1)), "subdiv": None,
                                    "frac": 0.0, "pulsed": (c, 0.07), "record_all": True,
                                    "controls": [], "step_controls": [], "real_pt": False}, 0.0, tau))
+    for api in CONTROL_APIS:
+        for tau in (-3.0e4, 3.0e4, 1.0e5):
+            fixed.insert(0, (api, _ctrl_params([(3, 0.0, 0, 0), (4, 0.0, 0, 1), (2, 0.0, 1, 0),
+                                                (3, 0.0, 1, 1)]), 0.0, tau))
+        for k, post in ((3, 0), (5, 1)):
+            fixed.insert(0, (api, _ctrl_params([(k, 0.0, post, 0)]), 0.0, -(k * 0.1)))
     for api in ("tempo", "mft"):
         for tau in (-0.3, -1.0, -2.5, 0.45):
             fixed.insert(0, (api, {"dt": 0.1, "n": 7, "subdiv": None, "frac": 0.0, "history": [4]},
@@ -1238,6 +1275,9 @@ def run(tier, seed, replay):
         "pulses-between-integers: rates and Lindblad operators that are short pulses (centre 0.5 / "
         "1.5, width 0.05-0.1) equal at all integer times, shifts 0.45, 0.5, 2.55 (pulse onto an "
         "integer) and -1.7.  "
+        "controls: float-time controls one step apart at origins +-3e4 / 1e5, and shifts that put "
+        "a pre / post control time exactly on t = 0.0, for compute_dynamics and "
+        "compute_dynamics_with_field.  "
         "compute-history: compute(t1); compute(t2)[; compute(t3)] on one Tempo / MeanFieldTempo "
         "object, shifts -0.3, -1.0, -2.5, -0.25, 0.45, 1.7: number of reported times, labels minus "
         "tau, states.  "
